@@ -228,6 +228,25 @@ func (r *Run) invoke(g *Goroutine, fv *FuncV, args []Value, retTo func(Value)) {
 		}
 		return
 	}
+	if r.inInit && fv.fn.Pkg != nil && isTestSupportPkg(fv.fn.Pkg.Pkg.Path()) {
+		// test-support packages (randomizers) are not part of any claim
+		if retTo != nil {
+			res := fv.fn.Signature.Results()
+			switch res.Len() {
+			case 0:
+				retTo(nil)
+			case 1:
+				retTo(OpaqueV{"result of " + fv.fn.String()})
+			default:
+				tv := make(TupleV, res.Len())
+				for i := range tv {
+					tv[i] = OpaqueV{"result of " + fv.fn.String()}
+				}
+				retTo(tv)
+			}
+		}
+		return
+	}
 	name := fv.fn.String()
 	if h, ok := r.eng.intrinsics[name]; ok {
 		r.res.Intrinsics[name] = true
